@@ -285,6 +285,14 @@ func headerLoop(variant int) []byte {
 // ---- family 2: RDATA of every type: valid, truncated, over-long, lying RDLENGTH ----
 
 func wrapRData(typ uint16, rdata []byte, rdlen int, tail bool) []byte {
+	return wrapRDataClass(typ, 1, rdata, rdlen, tail)
+}
+
+// rrClasses are the classes of the record under test besides IN: the decoded Go type is a function of the record
+// type alone, whatever the class says (RFC 2136 uses NONE and ANY with empty RDATA; 0 and 0xffff are reserved).
+var rrClasses = []uint16{0, 3, 254, 255, 0xffff}
+
+func wrapRDataClass(typ, class uint16, rdata []byte, rdlen int, tail bool) []byte {
 	a := &asm{}
 	n := 1
 	if tail {
@@ -296,7 +304,7 @@ func wrapRData(typ uint16, rdata []byte, rdlen int, tail bool) []byte {
 	a.u16(1)
 	a.name("example.com")
 	a.u16(int(typ))
-	a.u16(1)
+	a.u16(int(class))
 	a.u32(60)
 	a.u16(rdlen)
 	a.raw(rdata)
@@ -776,6 +784,14 @@ func forcedList() []forcedCase {
 		tn := dnsx.TypeName(t)
 		add("rdata:valid:"+tn, true, func(rng *mrand.Rand) []byte { rd := sampleRData(rng, t); return wrapRData(t, rd, len(rd), true) })
 		add("rdata:empty:"+tn, true, func(rng *mrand.Rand) []byte { return wrapRData(t, nil, 0, true) })
+		for _, c := range rrClasses {
+			c := c
+			add(fmt.Sprintf("rdata:class%d-valid:%s", c, tn), true, func(rng *mrand.Rand) []byte {
+				rd := sampleRData(rng, t)
+				return wrapRDataClass(t, c, rd, len(rd), true)
+			})
+			add(fmt.Sprintf("rdata:class%d-empty:%s", c, tn), true, func(rng *mrand.Rand) []byte { return wrapRDataClass(t, c, nil, 0, true) })
+		}
 		for cut := 1; cut <= 48; cut++ {
 			cut := cut
 			add(fmt.Sprintf("rdata:trunc%d:%s", cut, tn), true, func(rng *mrand.Rand) []byte {
